@@ -135,6 +135,31 @@ if out["import"] == "ok":
             except BaseException as e:  # noqa: BLE001
                 r2 = type(e).__name__
             works[lib] = [r1, r2]
+            # ... and through the other entry points: dataclass, NamedTuple, pydantic model (when pydantic is there)
+            import dataclasses
+            from typing import NamedTuple
+
+            forms = {}
+            TA = Annotated[T, dltype.Float32Tensor["a 3"]]
+            DC = dltype.dltyped_dataclass()(dataclasses.make_dataclass("DC", [("x", TA)]))
+            NT = dltype.dltyped_namedtuple()(NamedTuple("NT", [("x", TA)]))
+            ctors = {"dataclass": DC, "namedtuple": NT}
+            try:
+                import pydantic
+
+                ctors["pydantic"] = lambda v: pydantic.create_model("PM", __config__=pydantic.ConfigDict(arbitrary_types_allowed=True), x=(TA, ...))(x=v)  # noqa: E731
+            except ImportError:
+                pass
+            for fname, ctor in ctors.items():
+                res = []
+                for shape in ((2, 3), (2, 4)):
+                    try:
+                        ctor(I.mk_array(lib, "f32", shape))
+                        res.append("accept")
+                    except BaseException as e:  # noqa: BLE001
+                        res.append(type(e).__name__)
+                forms[fname] = res
+            out.setdefault("forms", {})[lib] = forms
         except BaseException as e:  # noqa: BLE001
             works[lib] = ["harness:" + type(e).__name__ + ":" + str(e)[:80]]
     out["works"] = works
